@@ -3,6 +3,7 @@
 from __future__ import annotations
 
 import ast
+import re
 from typing import Any
 
 from ..engine import astq
@@ -279,7 +280,11 @@ def run(chk: Check, ctx: Any) -> None:
         else:
             tests = [norm(n.test) for n in walk_no_nested(jw.node) if isinstance(n, ast.If) and any(_registers(x) for x in ast.walk(n))]
             only_labels = any("SsbLabel)" in t and "SsbForeignLabel" not in t for t in tests)
-            chk.decide("C09-R3", "JumpWriteHandler:registers-always", False if only_labels else None, jw,
+            if tests and all(re.fullmatch(r"not [\w.\[\]'\"]+\.synthetic", t) for t in tests):
+                # the idiom of the break/continue writers: a vertex inserted by the loop pass is not an op and has no entry of its own (C09-R4)
+                chk.hold("C09-R3", "JumpWriteHandler:registers-always", jw, "registered on every path for the ops of the input (inserted vertices are skipped)")
+            else:
+              chk.decide("C09-R3", "JumpWriteHandler:registers-always", False if only_labels else None, jw,
                        f"the Jump op is registered only under `{tests[0] if tests else '?'}`: a jump into another routine is followed by a foreign label vertex, whose "
                        "handler prints `jump @label;` for it, and that statement has no source map entry", "registered on every path")
     # ------------------------------------------------------------------ R4 synthetic vertices
